@@ -2,9 +2,9 @@
    backend_storage_etcd.go (backend tables, start, reload, etcd events, lookup).
    No proofs here.
 
-   The model follows the REPAIRED code (fixes/C13/01..06).  The unrepaired
-   behaviour is kept next to it (upsert_slices, the flags of reload_with and
-   etcd_put_with) for the `_refuted` theorems and so that the correspondence
+   The model follows the REPAIRED code (fixes/C13/01..07).  The unrepaired
+   behaviour is kept next to it (upsert_slices, the flags of reload_with,
+   etcd_put_with and find_entry_with) for the `_refuted` theorems and so that the correspondence
    run can tell which of the two the implementation under test is. *)
 From Coq Require Import List ZArith NArith Bool String Ascii.
 Import ListNotations.
@@ -79,24 +79,42 @@ Fixpoint ends_with_slash (s : string) : bool :=
   end.
 Definition add_slash (u : string) : string := if ends_with_slash u then u else String.append u "/".
 
-Fixpoint find_entry (entries : list backend) (sch url : string) : option backend :=
+(* The test of one entry in getBackendLocked (fixes/C13/07):
+     strings.HasPrefix(url, entry.url) &&
+       (entry.url[len(entry.url)-1] == '/' || url[len(entry.url)] == '/')
+   `eu` is entry.url (not empty: the branch before returned), `url` the looked-up
+   URL after `if url[len(url)-1] != '/' { url += "/" }`.  The second index is in
+   range whenever it is evaluated: url has the prefix eu, ends in "/" and eu does
+   not, so url is longer than eu (proofs/BackendCfg_proofs.v, boundary_index_in_range).
+   boundary_fix = false: the test as it was, strings.HasPrefix(url, entry.url) alone. *)
+Definition is_slash (o : option ascii) : bool :=
+  match o with Some c => Ascii.eqb c "/" | None => false end.
+Definition url_matches (boundary_fix : bool) (eu url : string) : bool :=
+  String.prefix eu url &&
+  (negb boundary_fix || ends_with_slash eu || is_slash (String.get (String.length eu) url)).
+
+Fixpoint find_entry_with (boundary_fix : bool) (entries : list backend) (sch url : string) : option backend :=
   match entries with
   | [] => None
   | e :: r =>
-      if negb (is_url_allowed e sch) then find_entry r sch url
+      if negb (is_url_allowed e sch) then find_entry_with boundary_fix r sch url
       else if b_url e =? "" then Some e
-      else if String.prefix (b_url e) url then Some e
-      else find_entry r sch url
+      else if url_matches boundary_fix (b_url e) url then Some e
+      else find_entry_with boundary_fix r sch url
   end.
+Definition find_entry : list backend -> string -> string -> option backend := find_entry_with true.
+Definition find_entry_unrepaired : list backend -> string -> string -> option backend := find_entry_with false.
 
 (* getBackendLocked: host map, then `url[len(url)-1]` (index out of range on an
-   empty string), then the first allowed entry whose url is a prefix *)
-Definition get_backend_locked (t : table) (host sch ustr : string) : lres :=
+   empty string), then the first allowed entry that has no url (old-style) or whose
+   url is a prefix of the looked-up URL ending at a path-segment boundary *)
+Definition get_backend_locked_with (boundary_fix : bool) (t : table) (host sch ustr : string) : lres :=
   match t host with
   | None => LRes None
   | Some entries =>
-      if ustr =? "" then LPanic else LRes (find_entry entries sch (add_slash ustr))
+      if ustr =? "" then LPanic else LRes (find_entry_with boundary_fix entries sch (add_slash ustr))
   end.
+Definition get_backend_locked : table -> string -> string -> string -> lres := get_backend_locked_with true.
 
 (* ---- static storage --------------------------------------------------------- *)
 Record section := mkSec {
@@ -187,19 +205,23 @@ Definition fresh (c : config) : sstate :=
        end.
 
 (* backendStorageStatic.GetBackend *)
-Definition get_backend_static (st : sstate) (host sch ustr : string) : lres :=
+Definition get_backend_static_with (boundary_fix : bool) (st : sstate) (host sch ustr : string) : lres :=
   match st_tab st host with
   | None => if st_allowall st then LRes (st_compat st) else LRes None
-  | Some _ => get_backend_locked (st_tab st) host sch ustr
+  | Some _ => get_backend_locked_with boundary_fix (st_tab st) host sch ustr
   end.
+Definition get_backend_static : sstate -> string -> string -> string -> lres := get_backend_static_with true.
 
 (* BackendConfiguration.IsUrlAllowed / GetBackend / GetSecret for the URL that
    url.Parse makes of the string (a string that does not parse is refused) *)
-Definition lookup_static (st : sstate) (probe : string) : lres :=
+Definition lookup_static_with (boundary_fix : bool) (st : sstate) (probe : string) : lres :=
   match url_parse probe with
   | None => LRes None
-  | Some p => get_backend_static st (n_host p) (p_scheme p) (n_str p)
+  | Some p => get_backend_static_with boundary_fix st (n_host p) (p_scheme p) (n_str p)
   end.
+Definition lookup_static : sstate -> string -> lres := lookup_static_with true.
+(* the lookup as it was before fixes/C13/07 *)
+Definition lookup_static_unrepaired : sstate -> string -> lres := lookup_static_with false.
 
 (* UpsertHost, repaired: the new list in configured order; an unchanged backend
    keeps its existing object *)
@@ -401,11 +423,13 @@ Definition fresh_etcd_unrepaired (kv : list (N * option einfo)) : estate :=
   run_etcd_unrepaired (map (fun e => EPut (fst e) (snd e)) kv).
 
 (* backendStorageEtcd.GetBackend through BackendConfiguration *)
-Definition lookup_etcd (st : estate) (probe : string) : lres :=
+Definition lookup_etcd_with (boundary_fix : bool) (st : estate) (probe : string) : lres :=
   match url_parse probe with
   | None => LRes None
-  | Some p => get_backend_locked (es_tab st) (n_host p) (p_scheme p) (n_str p)
+  | Some p => get_backend_locked_with boundary_fix (es_tab st) (n_host p) (p_scheme p) (n_str p)
   end.
+Definition lookup_etcd : estate -> string -> lres := lookup_etcd_with true.
+Definition lookup_etcd_unrepaired : estate -> string -> lres := lookup_etcd_with false.
 
 End WithUrlParse.
 
